@@ -961,6 +961,12 @@ m("c05-flush-deletes-selfdestructed", "C05", "x/evm/statedb/statedb.go",
 m("c07-call-value-unguarded", "C07", "precompiles/common/precompile.go",
   "\tcase contract.Value() != nil && contract.Value().Sign() > 0 && p.HasReceive():", "\tcase contract.Value().Sign() > 0 && p.HasReceive():",
   "call-value-Sign-1-nil-guarded", "the call value is dereferenced without a nil test")
+m("c02-delete-account-early-return", "C02", "x/evm/keeper/statedb.go",
+  "\t\treturn k.SetBalance(ctx, addr, new(big.Int))\n\t}\n\n\t// NOTE: only Ethereum accounts", "\t\treturn nil\n\t}\n\n\t// NOTE: only Ethereum accounts",
+  "clears-the-balance-on-every-success-path", "destroying a contract without an auth account leaves its coins")
+m("c16-update-params-unchecked-precompiles", "C16", "x/evm/keeper/msg_server.go",
+  "\t\tif !k.IsAvailablePrecompile(address) {\n\t\t\treturn nil, errorsmod.Wrapf(types.ErrInactivePrecompile", "\t\tif !k.IsAvailablePrecompile(address) && false {\n\t\t\treturn nil, errorsmod.Wrapf(types.ErrInactivePrecompile",
+  "UpdateParams#active-precompiles-are-available", "the availability test decides nothing")
 for prop in ("C16", "C07"):
     m("c%s-gas-meter-without-precharge" % prop[1:], prop, "precompiles/common/precompile.go",
       "sdk.NewGasMeter(initialGas + contract.Gas)", "sdk.NewGasMeter(contract.Gas)",
